@@ -441,6 +441,10 @@ contract(
     requires=["target_set.values is not target_set.attrpath_order", "distinct_elems(target_set.values)", "distinct_elems(target_set.attrpath_order)"],
     modifies=["*"],
     ensures=["result[0] is not None", "implies(not create_missing, heap_unchanged())",
+             # without creation the parent handed back is a set of the document itself, never a copy (an edit made in it is seen)
+             "implies(not create_missing, result[0] < alloc_at_entry())",
+             # ... and in any case either a set of the document or one created on the way, which is then empty
+             "result[0] < alloc_at_entry() or len(result[0].values) == 0",
              "result[0].values is not result[0].attrpath_order and distinct_elems(result[0].values) and distinct_elems(result[0].attrpath_order)"],
     call_asserts={
         # what is created on the way: an empty set under a name the current set does not bind yet
@@ -451,6 +455,8 @@ contract(
     loops={0: Loop(invariant=["isinstance(current, AttributeSet)",
                               "current.values is not current.attrpath_order and distinct_elems(current.values) and distinct_elems(current.attrpath_order)",
                               "implies(not create_missing, heap_unchanged())",
+                              "implies(not create_missing, current < alloc_at_entry())",
+                              "current < alloc_at_entry() or len(current.values) == 0",
                               # until a set has to be created nothing is written; from then on the walk is inside fresh, empty sets (nothing can be
                               # refused any more) and the only old lists that changed have grown at their end
                               "heap_unchanged() or current >= alloc_at_entry()",
